@@ -41,6 +41,7 @@ global_asm!(
     .text
     .globl fv_enter
     .globl fv_return
+    .globl fv_return_sp_done
 fv_enter:
     push rbx
     push rbp
@@ -90,6 +91,7 @@ fv_enter:
 fv_return:
     mov [rip + FV_GUEST + 32], rsp
     mov rsp, [rip + FV_HOST_RSP]
+fv_return_sp_done:
     mov [rip + FV_GUEST + 0], rax
     mov [rip + FV_GUEST + 8], rcx
     mov [rip + FV_GUEST + 16], rdx
@@ -139,6 +141,7 @@ fv_return:
 extern "C" {
     fn fv_enter();
     fn fv_return();
+    fn fv_return_sp_done();
 }
 
 /// Layout of the fixed mapping.
@@ -149,6 +152,10 @@ pub const WIN_OFF: u64 = 0x8000; // 4 KiB scratch window for memory operands
 pub const WIN_SIZE: usize = 0x1000;
 pub const STACK_OFF: u64 = 0xC000; // guest stack area (4 KiB), sp starts in the middle
 pub const PAD_FLAG_OFF: u64 = 0x10000; // landing pads write here which one was reached
+/// Read+execute-only page holding the absolute jump back into the trampoline. The landing pads reach it with a
+/// relative jump, so no host address ever sits in memory the instruction under test can write: a guest store
+/// that hits a pad can at worst redirect execution inside the sandbox mapping (int3-filled), never into the host.
+pub const TRAMP_OFF: u64 = 0x1f000;
 
 pub struct Sandbox {
     pub base: *mut u8,
@@ -165,7 +172,11 @@ unsafe extern "C" fn on_signal(sig: libc::c_int, info: *mut libc::siginfo_t, ctx
     FV_FAULT = sig as u64;
     FV_FAULT_ADDR = (*info).si_addr() as u64;
     FV_FAULT_RIP = (*uc).uc_mcontext.gregs[libc::REG_RIP as usize] as u64;
-    (*uc).uc_mcontext.gregs[libc::REG_RIP as usize] = fv_return as usize as i64;
+    // The guest stack pointer may be anything (e.g. `xchg [mem], rsp`); a sigreturn into a context with a
+    // non-canonical rsp is fatal, so the handler itself saves the guest rsp and switches to the host stack.
+    FV_GUEST.gpr[4] = (*uc).uc_mcontext.gregs[libc::REG_RSP as usize] as u64;
+    (*uc).uc_mcontext.gregs[libc::REG_RSP as usize] = FV_HOST_RSP as i64;
+    (*uc).uc_mcontext.gregs[libc::REG_RIP as usize] = fv_return_sp_done as usize as i64;
     // direction flag and trap flag must not leak into the handler's return path
     (*uc).uc_mcontext.gregs[libc::REG_EFL as usize] &= !(0x400 | 0x100);
 }
@@ -196,28 +207,37 @@ impl Sandbox {
                 libc::sigemptyset(&mut sa.sa_mask);
                 libc::sigaction(sig, &sa, std::ptr::null_mut());
             }
+            let tramp = (p as *mut u8).add(TRAMP_OFF as usize);
+            std::ptr::write_bytes(tramp, 0xcc, 0x1000);
+            let mut abs = [0u8; 14];
+            abs[0] = 0xff;
+            abs[1] = 0x25;
+            abs[6..14].copy_from_slice(&(fv_return as usize as u64).to_le_bytes());
+            std::ptr::copy_nonoverlapping(abs.as_ptr(), tramp, 14);
+            if libc::mprotect(tramp as *mut libc::c_void, 0x1000, libc::PROT_READ | libc::PROT_EXEC) != 0 {
+                return Err("cannot protect the trampoline page".into());
+            }
             Ok(Sandbox { base: p as *mut u8 })
         }
     }
     pub fn slice(&self, off: u64, len: usize) -> &mut [u8] {
         unsafe { std::slice::from_raw_parts_mut(self.base.add(off as usize), len) }
     }
-    /// absolute `jmp` back to the trampoline (clobbers nothing): ff 25 00 00 00 00 <addr64>
-    pub fn jmp_back() -> [u8; 14] {
-        let mut b = [0u8; 14];
-        b[0] = 0xff;
-        b[1] = 0x25;
-        b[6..14].copy_from_slice(&(fv_return as usize as u64).to_le_bytes());
+    /// `jmp rel32` from sandbox address `at` to the protected trampoline page (clobbers nothing)
+    pub fn jmp_back(at: u64) -> [u8; 5] {
+        let rel = ((MAP_BASE + TRAMP_OFF) as i64 - (at as i64 + 5)) as i32;
+        let mut b = [0xe9u8, 0, 0, 0, 0];
+        b[1..5].copy_from_slice(&rel.to_le_bytes());
         b
     }
-    /// landing pad: `mov byte ptr [rip+disp], id` ; jmp back   (21 bytes)
+    /// landing pad: `mov byte ptr [rip+disp], id` ; jmp back   (12 bytes)
     pub fn pad(at: u64, id: u8) -> Vec<u8> {
         let flag = MAP_BASE + PAD_FLAG_OFF;
         let disp = (flag as i64 - (at as i64 + 7)) as i32;
         let mut v = vec![0xc6, 0x05];
         v.extend_from_slice(&disp.to_le_bytes());
         v.push(id);
-        v.extend_from_slice(&Sandbox::jmp_back());
+        v.extend_from_slice(&Sandbox::jmp_back(at + 7));
         v
     }
     /// Run the code at MAP_BASE+CODE_OFF from the given state. Returns (final state, fault signal or 0).
@@ -240,7 +260,7 @@ pub fn selftest() -> Result<(), String> {
     let code = sb.slice(CODE_OFF, 64);
     code[0] = 0x00;
     code[1] = 0xd8; // add al, bl
-    code[2..16].copy_from_slice(&Sandbox::jmp_back());
+    code[2..7].copy_from_slice(&Sandbox::jmp_back(MAP_BASE + CODE_OFF + 2));
     let mut st = NState::zero();
     st.gpr[0] = 0xf0;
     st.gpr[3] = 0x20;
@@ -255,7 +275,7 @@ pub fn selftest() -> Result<(), String> {
     code[0] = 0x48;
     code[1] = 0x8b;
     code[2] = 0x00;
-    code[3..17].copy_from_slice(&Sandbox::jmp_back());
+    code[3..8].copy_from_slice(&Sandbox::jmp_back(MAP_BASE + CODE_OFF + 3));
     st.gpr[0] = 0x1111_1111_1111_1111;
     let (_, fault, _, _) = sb.run(&st);
     if fault != libc::SIGSEGV as u64 {
@@ -263,10 +283,26 @@ pub fn selftest() -> Result<(), String> {
     }
     // and the process still works afterwards
     code[0] = 0x90;
-    code[1..15].copy_from_slice(&Sandbox::jmp_back());
+    code[1..6].copy_from_slice(&Sandbox::jmp_back(MAP_BASE + CODE_OFF + 1));
     let (out, fault, _, _) = sb.run(&st);
     if fault != 0 || out.gpr[0] != st.gpr[0] {
         return Err("state not preserved after a fault".into());
+    }
+    // a fault taken while the guest stack pointer is non-canonical: mov rsp, rax ; push rax
+    code[0] = 0x48;
+    code[1] = 0x89;
+    code[2] = 0xc4;
+    code[3] = 0x50;
+    code[4..9].copy_from_slice(&Sandbox::jmp_back(MAP_BASE + CODE_OFF + 4));
+    let (out, fault, _, _) = sb.run(&st);
+    if fault == 0 || out.gpr[4] != 0x1111_1111_1111_1111 {
+        return Err(format!("fault with a wild stack pointer: fault={} rsp={:#x}", fault, out.gpr[4]));
+    }
+    code[0] = 0x90;
+    code[1..6].copy_from_slice(&Sandbox::jmp_back(MAP_BASE + CODE_OFF + 1));
+    let (out, fault, _, _) = sb.run(&st);
+    if fault != 0 || out.gpr[0] != st.gpr[0] {
+        return Err("state not preserved after a fault with a wild stack pointer".into());
     }
     unsafe {
         libc::munmap(sb.base as *mut libc::c_void, MAP_SIZE);
